@@ -23,8 +23,10 @@ def gen_random(rng, nslots, n):
     for _ in range(n):
         r = rng.random()
         s = lambda: rng.randrange(nslots)
-        if r < 0.20:
+        if r < 0.17:
             ops.append("K,%d" % s())
+        elif r < 0.20:
+            ops.append("I,%d,%d" % (s(), rng.randrange(1, 6)))      # an immediate other than #f: as key never broken, as value reset with the key
         elif r < 0.30:
             ops.append("C,%d,%d,%d" % (s(), s(), s()))
         elif r < 0.52:
@@ -195,6 +197,91 @@ def gen_fd_scenarios(rng):
     return hs
 
 
+def flag_ports(rng, ops, prob=0.5):
+    """open some of the ports over filenos with the shutdown flag (open-input-file-descriptor f #t, what (chibi net) open-net-io
+    does): sexp_finalize_port then calls shutdown(2) too, which must not change who owns the descriptor.  Only used on pipes
+    and plain files, where shutdown(2) is a no-op (ENOTSOCK) and the data-transfer observation Z keeps its meaning."""
+    return [("PS" + o[1:] if o.startswith("P,") else "WS" + o[1:] if o.startswith("W,") else o) if rng.random() < prob else o for o in ops]
+
+
+def gen_shutdown_scenarios(rng, embed):
+    """scripted: TWO ports on one fileno, both opened with the shutdown flag; one of them is closed explicitly or dropped and
+    collected while the other (and the fileno object) stays in use: the survivor must still transfer data, the number must
+    still name the same socket / pipe, also after the number would have been reused (F) and after more collections; then the
+    survivor is closed too and the descriptor must be released (count reached 0).  Socket pairs (shutdown(2) really shuts one
+    direction down: the other direction is the one observed) and pipes (two readers on the read end, two writers on the write end)."""
+    hs = []
+    close1 = ["X,%d", "D,%d;G"] if embed else ["X,%d", "D,%d;G", "XI,%d", "XO,%d"]
+    for c in close1:
+        for drop_fileno in (False, True):
+            for peer_flag in (False, True):
+                pin, pout = ("PS", "WS") if peer_flag else ("P", "W")
+                # socket pair: A = R0 with inA = R2, outA = R3 (flagged); B = R1 with inB = R4, outB = R5
+                for victim, z in ((3, "Z,2,5"), (2, "Z,4,3")):
+                    if ("XI" in c and victim == 3) or ("XO" in c and victim == 2):
+                        continue
+                    ops = ["S,0,1", "PS,2,0", "WS,3,0", "%s,4,1" % pin, "%s,5,1" % pout, "Z,2,5", "Z,4,3"]
+                    if drop_fileno:
+                        ops.append("D,0")
+                    ops += (c % victim).split(";") + [z, "G", z, "F,6", z, "G", z, "D,6", "G", z]
+                    ops += ["X,%d" % (5 - victim), "G", "D,1", "D,4", "D,5", "G"]
+                    hs.append((8, ops, "shutdown-socket"))
+                # pipe: read end R0 with two flagged readers R2, R3; write end R1 with two flagged writers R4, R5
+                for victim, z, other in ((2, "Z,3,4", 3), (4, "Z,2,5", 5)):
+                    if ("XI" in c and victim == 4) or ("XO" in c and victim == 2):
+                        continue
+                    ops = ["Q,0,1", "PS,2,0", "PS,3,0", "WS,4,1", "WS,5,1", "Z,2,4", "Z,3,5"]
+                    if drop_fileno:
+                        ops += ["D,0", "D,1"]
+                    ops += (c % victim).split(";") + [z, "G", z, "F,6", z, "G", z, "D,6", "G", z]
+                    ops += ["X,%d" % other, "G"] + ["D,%d" % i for i in range(6)] + ["G"]
+                    hs.append((8, ops, "shutdown-pipe"))
+    return hs
+
+
+IMM_CODES = [1, 2, 3, 4, 5]
+
+
+def gen_imm(rng):
+    """bare-context embedding, FRESH context (op N): the history's first ephemerons are the first ephemerons of the context, so
+    whatever switches the collector's weak pass on (SEXP_G_WEAK_OBJECTS_PRESENT) has to be switched on by THEM.  Classes:
+    A every ephemeron has a heap key and an immediate value (fixnum, #t, char, '(), #f): a dropped key must be reported broken and
+      read #f, the value must read #f; a held key keeps key and value;
+    B every ephemeron has an immediate key and a heap value: never broken, the value (held by nothing else) must be retained;
+    C a mixture, in random order, immediate/immediate included."""
+    cls = rng.choice("AAABBC")
+    n = rng.randrange(1, 5)
+    ns = 3 * n + 2
+    ops = ["N"]
+    keys, vals = [], []
+    for j in range(n):
+        k, v, e = 3 * j, 3 * j + 1, 3 * j + 2
+        kind = cls if cls != "C" else rng.choice("ABI")
+        if kind == "A":
+            ops.append("K,%d" % k)
+            if rng.random() < 0.8:
+                ops.append("I,%d,%d" % (v, rng.choice(IMM_CODES)))
+            keys.append(k)
+        elif kind == "B":
+            if rng.random() < 0.8:
+                ops.append("I,%d,%d" % (k, rng.choice(IMM_CODES)))
+            ops.append("K,%d" % v if rng.random() < 0.6 else "C,%d,%d,%d" % (v, ns - 1, ns - 1))
+            vals.append(v)
+        else:
+            ops += ["I,%d,%d" % (k, rng.choice(IMM_CODES)), "I,%d,%d" % (v, rng.choice(IMM_CODES))]
+        ops.append("E,%d,%d,%d" % (e, k, v))
+        if rng.random() < 0.5:
+            ops.append("D,%d" % e)           # the ephemeron itself is held by the observer only
+    if rng.random() < 0.3:
+        ops.append("G")
+    drop = [x for x in keys + vals if rng.random() < 0.7]
+    ops += ["D,%d" % x for x in drop] + ["G"]
+    if rng.random() < 0.5:
+        ops.append("G")
+    ops += ["D,%d" % x for x in keys + vals if x not in drop] + ["G"]
+    return (ns, ops, "imm" + cls)
+
+
 def legalise(ctx, exe, hists, rounds=12):
     """remove the operations the model places outside its domain (DOMAIN k: operation k works on the number of a fileno
     object that is already closed), until the model accepts the history"""
@@ -229,9 +316,16 @@ def gen_histories(rng, n):
             hs.append((ns, ops, "selfref"))
         elif r < 0.86:
             ns, ops = gen_ports(rng)
+            if rng.random() < 0.5:
+                ops = flag_ports(rng, ops)
             hs.append((ns, ops, "ports"))
         else:
             ns, ops = gen_fds(rng)
+            r2 = rng.random()
+            if r2 < 0.4:
+                ops = flag_ports(rng, ops)                     # pipes and files, ports with the shutdown flag
+            elif r2 < 0.6:
+                ops = ["S" + o[1:] if o.startswith("Q,") else o for o in ops]      # socket pairs instead of pipes (no flags)
             hs.append((ns, ops, "fds"))
     return hs
 
@@ -394,6 +488,8 @@ def layout_family(ctx, exe, d, thorough, corpus=()):
     """K-outer on the C embedding (bare context: only the history allocates), with the achieved addresses checked"""
     emb = B.cc_embed(d, os.path.join(HERE, "..", "harness", "embed_c16.c"), os.path.join(d, "embed_c16"))
     lay = list(corpus) + gen_layouts(ctx.rng, thorough) + [gen_frag(ctx.rng) for _ in range(12 if not thorough else 400)]
+    # round 3: fresh contexts whose first ephemerons have immediate values / keys; two flagged ports on one socket / pipe end
+    lay += [gen_imm(ctx.rng) for _ in range(60 if not thorough else 3000)] + gen_shutdown_scenarios(ctx.rng, True)
     addrs = {}
     outer(ctx, exe, d, "embed", lay, cmd=[emb], addrs=addrs)
     hit, classes = 0, set()
@@ -591,7 +687,7 @@ def outer(ctx, exe, d, variant, hists, env=None, cmd=None, addrs=None):
             continue
         if mo == "DOMAIN":
             continue                       # outside the modelled domain (not legalised): not compared
-        nontriv = any(o.startswith("E") for o in h[1]) or any(o[0] in "OFPQWU" for o in h[1])
+        nontriv = any(o.startswith("E") for o in h[1]) or any(o[0] in "OFPQWUS" for o in h[1])
         ctx.count(1, key=(variant, hist_line(h), str(env)), nontrivial=nontriv)
         ctx.cov["traces_validated_against_impl"] += 1
         mm = first_mismatch(mo, io)
@@ -825,46 +921,89 @@ def _dump_replay(d, hists, g, cmd=None):
 
 # ------------------------------------------------------------------------------------------------ descriptor loop
 LOOP = r"""
-(import (scheme base) (scheme write) (scheme file) (chibi filesystem))
+(import (scheme base) (scheme write) (scheme file) (chibi filesystem) (chibi io))
 (define (fd-count) (length (directory-files "/proc/self/fd")))
 (define base (fd-count))
 (define peak 0)
+(define kinds (vector %s))
+(define nkinds (vector-length kinds))
+(define made (make-vector 16 0))
+(define (note! k) (vector-set! made k (+ 1 (vector-ref made k))))
+;; every kind of port a program can drop unclosed.  The ones made by open-input-file / open-output-file must always be
+;; obtainable (collect-and-retry on EMFILE); the raw (open ...) of (chibi filesystem) has no retry, so the kinds built on it
+;; give up quietly when the table is full.
+(define (drop-one! k)
+  (case k
+    ((0) (let ((p (open-input-file "/dev/null"))) (read-char p) (note! 0)))
+    ((1) (let ((p (open-output-file "/dev/null"))) (write-string "pending" p) (note! 1)))            ; unflushed data
+    ((2) (let ((p (open-output-file "/dev/full"))) (write-string "pending" p) (note! 2)))            ; the finaliser's flush FAILS (ENOSPC)
+    ((3) (let ((f (guard (e (#t #f)) (open "/dev/null" open/read))))                                ; a port on a fileno closed by hand
+           (if (fileno? f) (let ((p (open-input-file-descriptor f))) (close-file-descriptor f) (note! 3)))))
+    ((4) (let ((p (make-custom-input-port (lambda (str start end) 0)))) (note! 4)))                   ; custom ports: finalised, own nothing
+    ((5) (let ((p (make-custom-output-port (lambda (str start end) (- end start))))) (write-string "pending" p) (note! 5)))
+    ((6) (let ((f (guard (e (#t #f)) (open "/dev/zero" open/read))))                                ; a counted port over a dropped fileno
+           (if (fileno? f) (let ((p (open-input-file-descriptor f))) (read-u8 p) (note! 6)))))
+    ((7) (let ((f (guard (e (#t #f)) (open "/dev/full" open/write))))                               ; fd-backed output port, flush fails
+           (if (fileno? f) (let ((p (open-output-file-descriptor f))) (write-string "pending" p) (note! 7)))))
+    ((8) (let ((p (open-binary-input-file "/dev/zero"))) (read-u8 p) (note! 8)))
+    ((9) (let ((p (open-binary-output-file "/dev/full"))) (write-u8 1 p) (note! 9)))
+    (else #f)))
+(define (fileno? x) (and x (not (boolean? x)) (not (number? x))))
 (let lp ((i 0))
   (if (< i %d)
       (begin
-        (if (even? i) (open-input-file "/dev/null") (open-output-file "/dev/null"))
+        (drop-one! (vector-ref kinds (modulo i nkinds)))
         (if (= 0 (modulo i 97)) (let ((n (fd-count))) (if (> n peak) (set! peak n))))
         (lp (+ i 1)))))
-(write (list 'ok base peak)) (newline)
+;; and after all that, ordinary opens must still succeed
+(let lp ((i 0) (keep '()))
+  (if (< i 8)
+      (lp (+ i 1) (cons (if (even? i) (open-input-file "/dev/null") (open-output-file "/dev/null")) keep))
+      (for-each close-port keep)))
+(write (list 'ok base peak made)) (newline)
 """
 
+# the mixes of dropped ports (kinds of LOOP); the first is the round-1 loop
+LOOP_MIXES = [("input+output", [0, 1]), ("all kinds", list(range(10))), ("input + /dev/full output", [0, 0, 0, 0, 2]),
+              ("fd-backed", [0, 3, 6, 7]), ("custom + /dev/full", [4, 5, 9, 8, 0])]
 
-def _limit_fds():
-    resource.setrlimit(resource.RLIMIT_NOFILE, (128, 128))
+
+def _limit_fds(n=128):
+    def f():
+        resource.setrlimit(resource.RLIMIT_NOFILE, (n, n))
+    return f
 
 
-def fd_loop(ctx, d, variant, n):
+def fd_loop(ctx, d, variant, n, mix=0, limit=128):
+    """descriptor exhaustion: n ports of the kinds of LOOP_MIXES[mix] are opened and dropped unclosed under RLIMIT_NOFILE=limit;
+    every open-input-file / open-output-file on the way and 8 more at the end must succeed"""
     os.makedirs(B.SCRATCH, exist_ok=True)
+    label, kinds = LOOP_MIXES[mix]
     with tempfile.NamedTemporaryFile("w", suffix=".scm", prefix="c16-loop-", dir=B.SCRATCH, delete=False) as fh:
-        fh.write(LOOP % n)
+        fh.write(LOOP % (" ".join(map(str, kinds)), n))
         path = fh.name
+    keep = False
     try:
         try:
             r = subprocess.run([os.path.join(d, "chibi-scheme"), path], capture_output=True, text=True, timeout=600,
-                               env=B.chibi_env(d), preexec_fn=_limit_fds)
+                               env=B.chibi_env(d), preexec_fn=_limit_fds(limit))
             out, rc, err = r.stdout.strip(), r.returncode, r.stderr
         except subprocess.TimeoutExpired:
             out, rc, err = "", "TIMEOUT", ""
+        ctx.count(1, key=("fd-loop", variant, n, label, limit), nontrivial=True)
+        m = re.match(r"\(ok (\d+) (\d+) (#\([\d ]*\))\)", out)
+        if not m or rc != 0:
+            keep = True
+            ctx.violation("fd:dropped-ports-exhaust-descriptors",
+                          input="%d ports (%s: kinds %s of LOOP in props/C16.py) opened and dropped, RLIMIT_NOFILE=%d (%s)" % (n, label, kinds, limit, variant),
+                          expected="(ok base peak made) with peak <= %d: every open-input-file / open-output-file succeeds after the forced collection" % limit,
+                          observed="rc=%s out=%s err=%s" % (rc, out[-200:], err[-300:]),
+                          replay="(ulimit -n %d; LD_LIBRARY_PATH=%s CHIBI_MODULE_PATH=%s/lib CHIBI_IGNORE_SYSTEM_PATH=1 %s/chibi-scheme %s)" % (limit, d, d, d, path))
+        else:
+            ctx.sample(dict(kind="fd-loop", variant=variant, mix=label, iterations=n, limit=limit, base=int(m.group(1)), peak=int(m.group(2)), made=m.group(3)))
     finally:
-        os.unlink(path)
-    ctx.count(1, key=("fd-loop", variant, n), nontrivial=True)
-    m = re.match(r"\(ok (\d+) (\d+)\)", out)
-    if not m or rc != 0:
-        ctx.violation("fd:dropped-ports-exhaust-descriptors", input="%d ports opened and dropped, RLIMIT_NOFILE=128 (%s)" % (n, variant),
-                      expected="(ok base peak) with peak <= 128", observed="rc=%s out=%s err=%s" % (rc, out[-200:], err[-300:]),
-                      replay="(ulimit -n 128; chibi-scheme <the LOOP program of props/C16.py with n=%d>)" % n)
-    else:
-        ctx.sample(dict(kind="fd-loop", variant=variant, iterations=n, base=int(m.group(1)), peak=int(m.group(2))))
+        if not keep:
+            os.unlink(path)
 
 
 # ------------------------------------------------------------------------------------------------ entry
@@ -907,7 +1046,7 @@ def run(ctx):
                     ns, ops = line.split(" ", 1)
                     (corpus_embed if f.startswith("embed") else corpus).append((int(ns), ops.split(";"), "corpus:" + f))
     n_def, n_asan, n_sched = (160, 40, 30) if not thorough else (8000, 2000, 2000)
-    hists = legalise(ctx, exe, corpus + gen_fd_scenarios(rng) + gen_histories(rng, n_def))
+    hists = legalise(ctx, exe, corpus + gen_fd_scenarios(rng) + gen_shutdown_scenarios(rng, False) + gen_histories(rng, n_def))
     mobs, iobs = outer(ctx, exe, d, "default", hists)
     for h, m, i in list(zip(hists, mobs, iobs))[len(corpus):len(corpus) + 3]:
         ctx.sample(dict(kind="outer", history=hist_line(h), family=h[2], model=m, impl=i))
@@ -955,9 +1094,13 @@ def run(ctx):
         ctx.broken("build:asan", str(e)[-800:])
         da = None
     if da:
-        outer(ctx, exe, da, "asan", legalise(ctx, exe, corpus + gen_fd_scenarios(rng)[::3] + gen_histories(rng, n_asan)))
+        outer(ctx, exe, da, "asan", legalise(ctx, exe, corpus + gen_fd_scenarios(rng)[::3] + gen_shutdown_scenarios(rng, False)[::3] + gen_histories(rng, n_asan)))
         fd_loop(ctx, da, "asan", 2000 if not thorough else 20000)
+        fd_loop(ctx, da, "asan", 600 if not thorough else 6000, mix=1, limit=48)
     fd_loop(ctx, d, "default", 20000)
+    # round 3: every kind of dropped port, among them ports whose finaliser FAILS (unflushed data on /dev/full), low limit
+    for mix in range(1, len(LOOP_MIXES)):
+        fd_loop(ctx, d, "default", 3000 if not thorough else 30000, mix=mix, limit=rng.choice([40, 48, 64]))
     ctx.assume("objects outside the heaps (static, printed 'x' in dumps) are treated as immediates; weak keys are heap objects in every history")
     ctx.assume("the collector is the precise one (SEXP_USE_CONSERVATIVE_GC=0): C stack and registers are not roots; the history driver "
                "collects from a call that holds no references and collects twice")
